@@ -352,6 +352,12 @@ pub fn run(ctx: &Ctx, prop: &str) -> Report {
         || spl_token_interface::id() != token::id() || spl_token_2022_interface::id() != token_2022::id() {
         rep.violate("constants", "program ids / packed lengths differ from the reference crates", "{}".into());
     }
+    if spl_generic_token::spl_token_ids() != vec![token::id(), token_2022::id()]
+        || !spl_generic_token::is_known_spl_token_id(&token::id()) || !spl_generic_token::is_known_spl_token_id(&token_2022::id())
+        || spl_generic_token::is_known_spl_token_id(&Pubkey::new_from_array([7u8; 32]))
+        || generic_token::Mint::unpack(&token::native_mint::ACCOUNT_DATA, &token::id()) != Some(generic_token::Mint { supply: 0, decimals: 9 }) {
+        rep.violate("constants", "known-id helpers or the native mint data are inconsistent", "{}".into());
+    }
     let mut rng = Rng::new(ctx.seed.wrapping_mul(191).wrapping_add(if prop == "C16" { 16 } else { 17 }));
     if prop == "C17" {
         // all lengths 0..=400 with the three marker bytes swept
